@@ -1,17 +1,28 @@
 #!/bin/bash
-# Build the framework from files on disk only (offline).  Idempotent.
+# Build the framework from files on disk only (offline).  Idempotent.  Warms the caches the checks re-use:
+# MIR dumps (nightly rustc, deps compiled once), native replay helpers, Kani harness crates (codegen of deps).
 set -e
 cd "$(dirname "$0")"
 export CARGO_NET_OFFLINE=true
 mkdir -p .cache evidence replays
 python3-vt - <<'PY'
-import sys
+import sys, subprocess, os
 sys.path.insert(0, '/verif')
 from vlib import mirdump, replay
-for c in ('zdd',):
-    p, info = mirdump.dump(c)
-    print('MIR', c, info)
-for r in ('zdd',):
-    print('replay helper', replay.build(r))
+for c in ('zdd', 'core', 'runtime', 'parser', 'cluster'):
+    try:
+        p, info = mirdump.dump(c); print('MIR', c, info, flush=True)
+    except Exception as e:
+        print('MIR dump failed for', c, e, flush=True)
+for r in sorted(os.listdir('/verif/replay')):
+    try:
+        print('replay helper', replay.build(r), flush=True)
+    except Exception as e:
+        print('replay build failed', r, e, flush=True)
 PY
+for k in kani/*/; do
+  k=$(basename "$k")
+  echo "kani codegen $k"
+  (cd kani/$k && cp -n /repo/Cargo.lock . 2>/dev/null; cargo kani --target-dir /verif/.cache/kani-target/$k -Z stubbing -Z unstable-options --only-codegen >/dev/null 2>&1 || echo "kani codegen of $k failed (reported again by the checks)")
+done
 echo "setup ok"
